@@ -108,3 +108,38 @@ Proof.
   eapply pulled_prefix; [apply jpeg_no_rd_once | exact Hn | exact Hd |].
   rewrite <- E. exact (jpeg_icc_exit_point inflate P R x n fr sos body fuel H1 H2 H3 H4 H5 H6 H7 H8 H9).
 Qed.
+
+(* WebP lossless and extended (with and without a profile): the same bound *)
+Lemma riff_split total payload rest : riff total (payload ++ rest) = riff total payload ++ rest.
+Proof. unfold riff. rewrite <- !app_assoc. reflexivity. Qed.
+
+Theorem webp_vp8l_pulled inflate total len w1 h1 hi body fuel r :
+  (total < 4294967296)%N -> (len < 4294967296)%N -> (w1 < 16384)%N -> (h1 < 16384)%N -> (hi < 16)%N ->
+  nofail r -> src_data r = riff total (vp8l_payload len w1 h1 hi body) ->
+  pulled inflate (webp_prog fuel) r <= 25 + 4095.
+Proof.
+  intros H1 H2 H3 H4 H5 Hn Hd.
+  assert (E : riff total (vp8l_payload len w1 h1 hi body) = riff total (vp8l_payload len w1 h1 hi []) ++ body).
+  { unfold riff, vp8l_payload. rewrite <- !app_assoc. reflexivity. }
+  rewrite E in Hd.
+  replace 25 with (length (riff total (vp8l_payload len w1 h1 hi []))) by (unfold riff, vp8l_payload, chunk_hdr, cc; rewrite !app_length, !u32le_length; reflexivity).
+  eapply pulled_prefix; [apply webp_no_rd_once | exact Hn | exact Hd |].
+  rewrite <- E. apply webp_vp8l_meta; assumption.
+Qed.
+
+Theorem webp_vp8x_profile_pulled inflate total flags r1 r2 r3 w1 h1 profile body fuel r :
+  (total < 4294967296)%N -> (w1 < 16777216)%N -> (h1 < 16777216)%N -> N.testbit (bN flags) 5 = true ->
+  (lenN profile < 4294967296)%N ->
+  nofail r -> src_data r = riff total (vp8x_payload flags r1 r2 r3 w1 h1 (iccp_chunk profile ++ body)) ->
+  pulled inflate (webp_prog fuel) r <= 38 + length profile + 4095.
+Proof.
+  intros H1 H2 H3 H4 H5 Hn Hd.
+  assert (E : riff total (vp8x_payload flags r1 r2 r3 w1 h1 (iccp_chunk profile ++ body))
+            = riff total (vp8x_payload flags r1 r2 r3 w1 h1 (iccp_chunk profile)) ++ body).
+  { unfold riff, vp8x_payload. rewrite <- !app_assoc. reflexivity. }
+  rewrite E in Hd.
+  replace (38 + length profile) with (length (riff total (vp8x_payload flags r1 r2 r3 w1 h1 (iccp_chunk profile)))).
+  - eapply pulled_prefix; [apply webp_no_rd_once | exact Hn | exact Hd |].
+    rewrite <- E. apply webp_vp8x_meta_with_profile; assumption.
+  - unfold riff, vp8x_payload, iccp_chunk, chunk_hdr, cc. rewrite !app_length, !u32le_length, !u24le_length. cbn [length]. lia.
+Qed.
